@@ -184,8 +184,38 @@ def main(argv=None):
         return run(ctx, mod, args)
     except SystemExit:
         raise
-    except BaseException:
+    except BaseException as e:
         traceback.print_exc()
+        tb = traceback.extract_tb(e.__traceback__)
+        repo_py = os.path.realpath(env.REPO_PY) + os.sep
+        inner = os.path.realpath(tb[-1].filename) if tb else ""
+        remote = getattr(getattr(e, "__cause__", None), "tb", None)
+        if not isinstance(remote, str) and "Traceback (most recent call last)" in str(e):
+            remote = str(e)  # a helper subprocess of the harness died and its traceback was passed on
+        if isinstance(remote, str):  # the exception crossed a process boundary: innermost REMOTE frame
+            import re as _re
+
+            files = _re.findall(r'File "([^"]+)", line (\d+), in (\S+)', remote)
+            if files:
+                inner = os.path.realpath(files[-1][0])
+                tb = [type("F", (), {"filename": f, "lineno": int(l), "name": n}) for f, l, n in files]
+        if inner.startswith(repo_py) and not isinstance(e, (KeyboardInterrupt, MemoryError, ImportError, SyntaxError)):
+            # The exception was raised INSIDE the implementation while the harness was driving it through
+            # an operation it performs on the unchanged tree without trouble: the correspondence is broken
+            # and no failing input of the property itself was isolated (DESIGN 1.3).
+            frames = ["%s:%d %s" % (os.path.relpath(os.path.realpath(f.filename), os.path.realpath(env.REPO)) if os.path.realpath(f.filename).startswith(os.path.realpath(env.REPO)) else os.path.basename(f.filename), f.lineno, f.name) for f in tb[-6:]]
+            payload = {
+                "property": prop,
+                "no_failing_input_found": True,
+                "what": "the implementation raised %s: %s at %s while the correspondence harness was driving it (an operation that completes on the unchanged tree); the property is no longer SHOWN to hold" % (type(e).__name__, str(e)[:300], frames[-1]),
+                "traceback": frames,
+                "seed": ctx.seed,
+                "tier": ctx.tier,
+            }
+            path = write_replay(prop, payload)
+            print("VIOLATION property=%s replay=%s no-failing-input-found" % (prop, path))
+            print("  " + payload["what"])
+            return 1
         print("[%s] INTERNAL ERROR of the checking machinery (exit 2, not a violation)" % prop)
         return 2
 
